@@ -319,3 +319,14 @@ package history
 //@   assigns *h.line, h.cursor.pos, h.cursor.mark
 //@   ensures [sources-untouched] allobj(s, "Source", entries(s) == old(entries(s)))
 //@   ensures [entry-or-unchanged] *h.line == old(*h.line) || (hcur(h) != nil && any(i, 0, len(entries(hcur(h))), *h.line == runes(entries(hcur(h))[i])))
+
+// fileHistory.Write, the in-memory view only (same clauses as the Source interface contract, with
+// entries(h)[k] read as h.lines[k].Block); what reaches the file is library and kernel behaviour (C10: not applicable)
+//@ func (*fileHistory).Write
+//@   props C08 C01
+//@   terminates
+//@   requires h != nil
+//@   assigns h.lines
+//@   ensures [at-most-one-appended] h.lines == old(h.lines) || (len(h.lines) == old(len(h.lines)) + 1 && h.lines[:old(len(h.lines))] == old(h.lines) && h.lines[old(len(h.lines))].Block == strtrim(s) && h.lines[old(len(h.lines))].Index == old(len(h.lines)))
+//@   ensures [blank-never] len(strtrim(s)) == 0 ==> h.lines == old(h.lines)
+//@   ensures [new-line-always] len(strtrim(s)) > 0 && (old(len(h.lines)) == 0 || old(h.lines)[old(len(h.lines)) - 1].Block != strtrim(s)) ==> len(h.lines) == old(len(h.lines)) + 1
